@@ -1526,6 +1526,21 @@ def _b_getattr(model, ex, args, kwargs, st, node):
             key = V(fn("json.unstr", Ref, z3.StringSort())(args[1].term), STR)
         if key is not None:
             return V(fn("native.getattr." + nm, z3.StringSort(), Ref)(key.term), ObjT("Opaque"))
+    if len(args) == 2 and isinstance(args[1].ty, OptT) and args[1].ty.inner is STR:
+        ex.safety("attribute name is a string", st, args[1].term != NONE, node, "TypeError")
+        args = [args[0], ex.coerce(args[1], STR)]
+    if len(args) == 2 and args[1].ty is STR and isinstance(args[0].ty, ObjT) and args[0].ty.name in model.classes:
+        # getattr(obj, <symbolic name>): a case split over the declared string-typed attributes of the class (closed world); a name
+        # outside them is an AttributeError obligation
+        cname = args[0].ty.name
+        names = [a for a, t in model.classes[cname].items() if not a.startswith("_") and t == "Str"]
+        if names:
+            ex.safety("attribute exists", st, z3.Or([args[1].term == z3.StringVal(a) for a in names]), node, "AttributeError")
+            cur = None
+            for a in reversed(names):
+                v = ex.getattr(args[0], a, st, node)
+                cur = v.term if cur is None else z3.If(args[1].term == z3.StringVal(a), v.term, cur)
+            return V(cur, STR)
     raise Unsupported("getattr with a computed name")
 
 
